@@ -57,6 +57,10 @@ impl Val {
     }
   }
   /// the kind annotation that fits this value, if it is one of the kinded families
+  /// kind annotation of the scalar families (string and bool included)
+  fn scalar_annotation(&self) -> Option<String> {
+    match self { Val::KS(k, _) => Some(ALL_KINDS[*k as usize % 14].name().to_string()), Val::F(_) => Some("f64".into()), Val::U8(_) => Some("u8".into()), Val::Str(_) => Some("string".into()), Val::Bool(_) => Some("bool".into()), _ => None }
+  }
   fn annotation(&self) -> Option<String> {
     match self { Val::KS(k, _) => Some(ALL_KINDS[*k as usize % 14].name().to_string()), Val::KV(k, _, _) => Some(format!("[{}]", ALL_KINDS[*k as usize % 14].name())), Val::F(_) => Some("f64".into()), Val::U8(_) => Some("u8".into()), _ => None }
   }
@@ -79,6 +83,9 @@ pub enum St {
   /// `x<kind> := value` (the annotation matches the value's own kind)
   DefineAnnotated { name: usize, mutable: bool, val: Val },
   DefineFrom { name: usize, mutable: bool, src: usize },
+  /// `y<kind> := x` where `kind` is the scalar kind x was last defined with (filled in by the strategy's post-pass; None = x's kind unknown,
+  /// rendered as a plain define-from). A same-kind annotated define from a bare name gives y its own cell on the pinned tree.
+  DefineFromAnnotated { name: usize, mutable: bool, src: usize, ann: Option<String> },
   DefineExpr { name: usize, mutable: bool, src: usize },
   DefineIndex { name: usize, src: usize, ix: u8 },
   Assign { name: usize, val: Val },
@@ -121,6 +128,7 @@ fn st_strategy() -> BoxedStrategy<St> {
     6 => (n(), any::<bool>(), val_strategy()).prop_map(|(name, mutable, val)| St::Define { name, mutable, val }),
     2 => (n(), any::<bool>(), val_strategy()).prop_map(|(name, mutable, val)| St::DefineAnnotated { name, mutable, val }),
     4 => (n(), any::<bool>(), n()).prop_map(|(name, mutable, src)| St::DefineFrom { name, mutable, src }),
+    5 => (n(), any::<bool>(), n()).prop_map(|(name, mutable, src)| St::DefineFromAnnotated { name, mutable, src, ann: None }),
     2 => (n(), any::<bool>(), n()).prop_map(|(name, mutable, src)| St::DefineExpr { name, mutable, src }),
     2 => (n(), n(), 0u8..6).prop_map(|(name, src, ix)| St::DefineIndex { name, src, ix }),
     4 => (n(), val_strategy()).prop_map(|(name, val)| St::Assign { name, val }),
@@ -148,15 +156,23 @@ impl Prop for C05 {
       let mut groups: BTreeMap<usize, usize> = BTreeMap::new(); // name -> alias group id
       let mut next = 0usize;
       let mut out = vec![];
+      // scalar kind each name was defined with (for annotated define-from-name)
+      let mut anns: BTreeMap<usize, String> = BTreeMap::new();
       for (st, dice) in v {
         let shared = |groups: &BTreeMap<usize, usize>, n: usize| groups.get(&n).map(|g| groups.values().filter(|x| *x == g).count() > 1).unwrap_or(false);
         let st2 = match &st {
           St::Assign { name, .. } | St::AssignFrom { name, .. } | St::IndexAssign { name, .. } | St::RangeAssign { name, .. } | St::OpAssign { name, .. } | St::OpAssignFrom { name, .. } | St::FieldAssign { name, .. }
             if k_alias && dice != 0 && shared(&groups, *name) => St::UseUndefined { name: *name },
+          St::DefineFromAnnotated { name, mutable, src, .. } => match anns.get(src) { Some(a) => St::DefineFromAnnotated { name: *name, mutable: *mutable, src: *src, ann: Some(a.clone()) }, None => St::DefineFrom { name: *name, mutable: *mutable, src: *src } },
           _ => st.clone(),
         };
         match &st2 {
-          St::Define { name, .. } | St::DefineAnnotated { name, .. } | St::DefineExpr { name, .. } | St::DefineIndex { name, .. } => { if !groups.contains_key(name) { groups.insert(*name, next); next += 1; } }
+          St::Define { name, val, .. } | St::DefineAnnotated { name, val, .. } if !groups.contains_key(name) => { if let Some(a) = val.scalar_annotation() { anns.insert(*name, a); } }
+          St::DefineFrom { name, src, .. } | St::DefineFromAnnotated { name, src, .. } if !groups.contains_key(name) => { if let Some(a) = anns.get(src).cloned() { anns.insert(*name, a); } }
+          _ => {}
+        }
+        match &st2 {
+          St::Define { name, .. } | St::DefineAnnotated { name, .. } | St::DefineExpr { name, .. } | St::DefineIndex { name, .. } | St::DefineFromAnnotated { name, .. } => { if !groups.contains_key(name) { groups.insert(*name, next); next += 1; } }
           St::DefineFrom { name, src, .. } => { if !groups.contains_key(name) { if let Some(g) = groups.get(src).copied() { groups.insert(*name, g); } } }
           St::AssignFrom { name, src } => { if let (Some(_), Some(g)) = (groups.get(name), groups.get(src).copied()) { groups.insert(*name, g); } }
           St::Destructure { names, from: Some(src), .. } => { if let Some(g) = groups.get(src).copied() { for nm in names { if !groups.contains_key(nm) { groups.insert(*nm, g); } } } }
@@ -170,7 +186,7 @@ impl Prop for C05 {
   }
   fn rule() -> &'static str {
     "case = history of 4-25 statements over names {a..e} executed one per interpret() call in one session: define / mutable define (13 \
-     value families: scalars and row/column/2x2 matrices of all 14 numeric kinds (plain and with a kind annotation), f64/u8 scalars, string, bool, row/column (u8 and f64)/general matrix, tuple, record, set, table), define from another name, \
+     value families: scalars and row/column/2x2 matrices of all 14 numeric kinds (plain and with a kind annotation), f64/u8 scalars, string, bool, row/column (u8 and f64)/general matrix, tuple, record, set, table), define from another name (plain, and with the annotation of the kind the source name was defined with), \
      from an expression, from an index, assign, assign from name, indexed assign, op-assign with a literal and with another name on the right, record-field assign, tuple destructure \
      (right/wrong arity, names already defined), use of an undefined name — valid and invalid mixed. After every statement the full symbol \
      snapshot (values + mutability) is compared with the previous one and with a reference store. Non-trivial = history contains a \
@@ -194,6 +210,7 @@ fn render(s: &St) -> String {
     St::Define { name, mutable, val } => format!("{}{} := {}", if *mutable { "~" } else { "" }, nm(*name), val.text()),
     St::DefineAnnotated { name, mutable, val } => match val.annotation() { Some(a) => format!("{}{}<{}> := {}", if *mutable { "~" } else { "" }, nm(*name), a, val.text()), None => format!("{}{} := {}", if *mutable { "~" } else { "" }, nm(*name), val.text()) },
     St::DefineFrom { name, mutable, src } => format!("{}{} := {}", if *mutable { "~" } else { "" }, nm(*name), nm(*src)),
+    St::DefineFromAnnotated { name, mutable, src, ann } => match ann { Some(a) => format!("{}{}<{}> := {}", if *mutable { "~" } else { "" }, nm(*name), a, nm(*src)), None => format!("{}{} := {}", if *mutable { "~" } else { "" }, nm(*name), nm(*src)) },
     St::DefineExpr { name, mutable, src } => format!("{}{} := {} + 1.0", if *mutable { "~" } else { "" }, nm(*name), nm(*src)),
     St::DefineIndex { name, src, ix } => format!("{} := {}[{}]", nm(*name), nm(*src), ix),
     St::Assign { name, val } => format!("{} = {}", nm(*name), val.text()),
@@ -212,7 +229,7 @@ fn render(s: &St) -> String {
 }
 
 fn rule_name(s: &St) -> &'static str {
-  match s { St::Define { mutable: false, .. } => "def", St::Define { .. } => "mdef", St::DefineAnnotated { .. } => "def-annotated", St::DefineFrom { .. } => "def-from", St::DefineExpr { .. } => "def-expr", St::DefineIndex { .. } => "def-index", St::Assign { .. } => "assign", St::AssignFrom { .. } => "assign-from", St::IndexAssign { .. } => "index-assign", St::RangeAssign { .. } => "range-assign", St::OpAssign { .. } => "op-assign", St::OpAssignFrom { .. } => "op-assign-from", St::FieldAssign { .. } => "field-assign", St::Destructure { .. } => "destructure", St::UseUndefined { .. } => "undefined-rhs" }
+  match s { St::Define { mutable: false, .. } => "def", St::Define { .. } => "mdef", St::DefineAnnotated { .. } => "def-annotated", St::DefineFrom { .. } => "def-from", St::DefineFromAnnotated { .. } => "def-from-annotated", St::DefineExpr { .. } => "def-expr", St::DefineIndex { .. } => "def-index", St::Assign { .. } => "assign", St::AssignFrom { .. } => "assign-from", St::IndexAssign { .. } => "index-assign", St::RangeAssign { .. } => "range-assign", St::OpAssign { .. } => "op-assign", St::OpAssignFrom { .. } => "op-assign-from", St::FieldAssign { .. } => "field-assign", St::Destructure { .. } => "destructure", St::UseUndefined { .. } => "undefined-rhs" }
 }
 
 type Store = BTreeMap<String, (bool, RVal)>;
@@ -253,8 +270,8 @@ fn check(c: &Case) -> Verdict {
     let defined = |n: usize| prev.contains_key(nm(n));
     let mutable = |n: usize| prev.get(nm(n)).map(|x| x.0).unwrap_or(false);
     let (targets, demand): (Vec<String>, Demand) = match s {
-      St::Define { name, .. } | St::DefineAnnotated { name, .. } | St::DefineExpr { name, .. } | St::DefineIndex { name, .. } | St::UseUndefined { name } | St::DefineFrom { name, .. } => {
-        let src_undefined = match s { St::DefineFrom { src, .. } | St::DefineExpr { src, .. } | St::DefineIndex { src, .. } => !defined(*src), St::UseUndefined { .. } => true, _ => false };
+      St::Define { name, .. } | St::DefineAnnotated { name, .. } | St::DefineExpr { name, .. } | St::DefineIndex { name, .. } | St::UseUndefined { name } | St::DefineFrom { name, .. } | St::DefineFromAnnotated { name, .. } => {
+        let src_undefined = match s { St::DefineFrom { src, .. } | St::DefineFromAnnotated { src, .. } | St::DefineExpr { src, .. } | St::DefineIndex { src, .. } => !defined(*src), St::UseUndefined { .. } => true, _ => false };
         let d = if defined(*name) { Demand::MustErr("VariableAlreadyDefined") } else if src_undefined { Demand::MustErr("UndefinedVariable") } else { Demand::Open };
         (vec![nm(*name).to_string()], d)
       }
@@ -316,10 +333,19 @@ fn check(c: &Case) -> Verdict {
         for k in now.keys() { if !prev.contains_key(k) && !targets.contains(k) { v.fail(format!("C05|unexpected-binding|{}", rule), format!("`{}` defined `{}` — history: {}", text, k, history())); return v; } }
         // model-computable values
         match s {
-          St::Define { name, mutable, .. } | St::DefineAnnotated { name, mutable, .. } | St::DefineFrom { name, mutable, .. } => {
+          St::Define { name, mutable, .. } | St::DefineAnnotated { name, mutable, .. } | St::DefineFrom { name, mutable, .. } | St::DefineFromAnnotated { name, mutable, .. } => {
             let got = now.get(nm(*name));
             match (s, got) {
               (_, None) => { v.fail(format!("C05|define-did-not-bind|{}", rule), format!("`{}` succeeded but `{}` is undefined", text, nm(*name))); return v; }
+              (St::DefineFromAnnotated { src, ann: Some(a), .. }, Some(g)) => {
+                // same-kind annotation: the value is the source's value, in a cell of its own (no shared origin is recorded:
+                // a later change of one name through the other is an isolation failure, not the listed aliasing finding)
+                let want = &prev[nm(*src)].1;
+                let same_kind = matches!(want, RVal::S(sc) if sc.kind() == *a);
+                if same_kind && g.1 != *want { v.fail(format!("C05|define-from-value|{}", rule), format!("`{}`: {} = {} but {} = {}", text, nm(*name), g.1.show(), nm(*src), want.show())); return v; }
+                if g.0 != *mutable { v.fail(format!("C05|mutability-flag|{}", rule), format!("`{}`: mutability of {} is {}", text, nm(*name), g.0)); return v; }
+                if same_kind { had_define_from = true; v.label("def-from-annotated:same-kind"); } else { v.label("def-from-annotated:other-kind"); }
+              }
               (St::DefineFrom { src, .. }, Some(g)) => {
                 let want = &prev[nm(*src)].1;
                 if g.1 != *want { v.fail(format!("C05|define-from-value|{}", rule), format!("`{}`: {} = {} but {} = {}", text, nm(*name), g.1.show(), nm(*src), want.show())); return v; }
